@@ -2,9 +2,10 @@
    For y = u o g with derivative witnesses u1,u2,u3 of u (at g x) and g1,g2,g3 of g (at x), the reference jets Y1,Y2,Y3
    (C15_ref.v) are the successive derivatives of y and  sum_k a_k y^(k)(x) = sum_j b_j u^(j)(g x)  with the b_j that
    _transform_ode_from_derivs computes, for ALL coefficient values and ALL thrice differentiable g. *)
-From Coq Require Import Reals.
+From Coq Require Import Reals List.
 From Coquelicot Require Import Coquelicot.
 From P Require Import C15_bell C15_gen C15_ref C15_proofs_fdb C15_proofs_chain.
+Import ListNotations.
 Open Scope R_scope.
 
 Theorem chain_rule_1 : forall (u0 u1 u2 u3 g g1 g2 g3 : R -> R) (x : R),
@@ -26,18 +27,6 @@ Theorem chain_rule_2 : forall (u0 u1 u2 u3 g g1 g2 g3 : R -> R) (x : R),
   tode_b2_2 a0 a1 a2 (g1 x) (g2 x) (g3 x) * u2 (g x).
 Proof. exact (fun u0 u1 u2 u3 g g1 g2 g3 x => chain_rule_2_lemma u0 u1 u2 g g1 g2 g3 x). Qed.
 Print Assumptions chain_rule_2.
-
-Theorem chain_rule_3 : forall (u0 u1 u2 u3 g g1 g2 g3 : R -> R) (x : R),
-  is_derive g x (g1 x) -> is_derive g1 x (g2 x) -> is_derive g2 x (g3 x) ->
-  is_derive u0 (g x) (u1 (g x)) -> is_derive u1 (g x) (u2 (g x)) -> is_derive u2 (g x) (u3 (g x)) ->
-  forall a0 a1 a2 a3 : R,
-  is_derive (fun t => u0 (g t)) x (Y1 u1 g g1 x) /\ is_derive (Y1 u1 g g1) x (Y2 u1 u2 g g1 g2 x) /\
-  is_derive (Y2 u1 u2 g g1 g2) x (Y3 u1 u2 u3 g g1 g2 g3 x) /\
-  a0 * u0 (g x) + a1 * Y1 u1 g g1 x + a2 * Y2 u1 u2 g g1 g2 x + a3 * Y3 u1 u2 u3 g g1 g2 g3 x =
-  tode_b3_0 a0 a1 a2 a3 (g1 x) (g2 x) (g3 x) * u0 (g x) + tode_b3_1 a0 a1 a2 a3 (g1 x) (g2 x) (g3 x) * u1 (g x) +
-  tode_b3_2 a0 a1 a2 a3 (g1 x) (g2 x) (g3 x) * u2 (g x) + tode_b3_3 a0 a1 a2 a3 (g1 x) (g2 x) (g3 x) * u3 (g x).
-Proof. exact chain_rule_3_lemma. Qed.
-Print Assumptions chain_rule_3.
 
 (* on an open set D the reference jets are Coquelicot's iterated derivatives of y = u o g *)
 Theorem chain_rule_derive_n : forall (u0 u1 u2 u3 g g1 g2 g3 : R -> R) (D : R -> Prop),
